@@ -267,8 +267,8 @@ def run(rep):
     lines = []
     meta = {}
     seen = set()
-    opts_pool = ["-", "fix=1", "fix=1,preset=0", "fix=1,alpha=1,preset=3", "fix=1,strip=safe,interlace=1", "fix=1,force=1,scale16=1", "strip=all",
-                 "timeout=0", "fix=1,timeout=0,preset=3"]
+    opts_pool = ["-", "fix=1", "preset=0,fix=1", "preset=3,fix=1,alpha=1", "fix=1,strip=safe,interlace=1", "fix=1,force=1,scale16=1", "strip=all",
+                 "timeout=0", "preset=3,fix=1,timeout=0"]
     for kind, b in files:
         ms = mutants(rng, kind, b, quick)
         if quick:
@@ -287,13 +287,13 @@ def run(rep):
     # the unmutated corpus under option vectors that exercise every phase, with and without an already expired timeout
     # ("never fails to terminate": an expired clock must not leave the collector waiting for work that will never be counted)
     for kind, b in files:
-        for o in ("timeout=0", "timeout=0,preset=3", "timeout=0,preset=5,alpha=1", "timeout=0,fast=0,filters=0+1+9", "preset=4", "timeout=0,interlace=1,force=1"):
+        for o in ("timeout=0", "preset=3,timeout=0", "preset=5,timeout=0,alpha=1", "timeout=0,fast=0,filters=0+1+9", "preset=4", "timeout=0,interlace=1,force=1"):
             cid = f"v{len(lines)}"
             lines.append(f"{cid} mem {o} {b.hex()}")
             meta[cid] = ("valid", len(b), o, b, kind)
     # valid files on internal limits (palette capacity, palette usage, thin interlaced images), unmutated, under option vectors
     for kind, b in boundary_files(rng):
-        for o in ("-", "preset=0", "preset=3,alpha=1", "preset=5,interlace=1", "fast=0,preset=2,filters=5", "strip=all,preset=4"):
+        for o in ("-", "preset=0", "preset=3,alpha=1", "preset=5,interlace=1", "preset=2,fast=0,filters=5", "preset=4,strip=all"):
             cid = f"b{len(lines)}"
             lines.append(f"{cid} mem {o} {b.hex()}")
             meta[cid] = ("boundary:" + kind, len(b), o, b, kind)
